@@ -405,7 +405,189 @@ pub fn run(ctx: &Ctx, rep: &mut Report) {
         };
         rep.add_subspace(&format!("P32E2::{}", f.name), cov, exhaustive_domain, &how);
     }
+    class_checks(ctx, rep, only.as_deref());
     rep.extra.set("per_function", per_fn);
     rep.extra.set("suspects", J::Arr(all_suspects));
     rep.extra.set("passing_samples_for_arbiter", J::Arr(all_passing));
+}
+
+
+/// "NaR inputs and arguments outside the real domain give NaR" (+ for powf over *all* pairs: the
+/// result is NaR exactly where x^y has no real value, and otherwise real with the mathematically
+/// required sign). Decided here, no arbiter needed: the expected answer is a class, not a value.
+fn class_checks(ctx: &Ctx, rep: &mut Report, only: Option<&str>) {
+    const NAR: u32 = 0x8000_0000;
+    let n = ctx.pick(1 << 16, 1 << 22);
+    for f in funcs() {
+        if let Some(o) = only {
+            if !f.name.contains(o) {
+                continue;
+            }
+        }
+        let chunk = 1u64 << 12;
+        let nshards = (n + chunk - 1) / chunk;
+        let seed = mix64(ctx.seed ^ crate::sweep::hash_str(f.name) ^ 0xc15c);
+        struct L2 {
+            cov: Cov,
+            fails: Vec<rt::Failure>,
+            n: u64,
+        }
+        let locals = rt::par_shards(
+            ctx.threads,
+            nshards,
+            || L2 { cov: Cov::default(), fails: vec![], n: 0 },
+            |shard, l: &mut L2| {
+                let slot = rt::my_slot();
+                let mut r = Rng::new(seed, shard);
+                for _ in 0..chunk {
+                    // choose a case whose required class is known
+                    let mut a = crate::gen::pat(&mut r, P32) as u32;
+                    let mut b = crate::gen::pat(&mut r, P32) as u32;
+                    // expected: Some(true) = NaR required, Some(false) = real required (+ sign), None = skip
+                    let mut want_neg: Option<bool> = None;
+                    let want_nar: Option<bool> = match f.name {
+                        "ln" | "log2" => {
+                            if r.chance(1, 4) {
+                                a = NAR;
+                            } else if (a as i32) > 0 {
+                                a = (a as i32).wrapping_neg() as u32; // x <= 0
+                            }
+                            Some(true)
+                        }
+                        "asin" | "acos" => {
+                            if r.chance(1, 4) {
+                                a = NAR;
+                                Some(true)
+                            } else {
+                                let x = to_f64(a);
+                                if x.abs() > 1.0 { Some(true) } else { None }
+                            }
+                        }
+                        "powf" => {
+                            match r.below(8) {
+                                0 => a = NAR,
+                                1 => b = NAR,
+                                2 => {
+                                    // integer exponents next to the parity threshold
+                                    let k = r.range(-(1 << 24), 1 << 24);
+                                    b = enc(k as f64) as u32;
+                                }
+                                3 => b = enc(r.range(-40, 40) as f64) as u32,
+                                4 => a = 0,
+                                _ => {}
+                            }
+                            let (x, y) = (to_f64(a), to_f64(b));
+                            let yint = y == y.trunc();
+                            let yodd = yint && y.abs() < 9.0e15 && ((y.abs() as u64) & 1) == 1;
+                            if a == NAR || b == NAR {
+                                // pow(NaR, 0) = 1 and pow(1, NaR) = 1 follow the IEEE convention: not judged
+                                if (a == NAR && b == 0) || (b == NAR && a == 0x4000_0000) { None } else { Some(true) }
+                            } else if b == 0 || a == 0x4000_0000 {
+                                want_neg = Some(false);
+                                Some(false)
+                            } else if a == 0 {
+                                if y < 0.0 { Some(true) } else { None }
+                            } else if x < 0.0 && !yint {
+                                Some(true)
+                            } else if (y * x.abs().log2()).abs() >= 119.0 {
+                                // |x^y| beyond maxpos / below minpos: the crate has no stated behaviour
+                                // there (its exp returns NaR above 104), outside the supported domain
+                                None
+                            } else {
+                                want_neg = Some(x < 0.0 && yodd);
+                                Some(false)
+                            }
+                        }
+                        _ => {
+                            // NaR in, NaR out
+                            if f.arity == 1 || r.chance(1, 2) { a = NAR } else { b = NAR }
+                            Some(true)
+                        }
+                    };
+                    let Some(want_nar) = want_nar else { continue };
+                    if f.name != "powf" && a != NAR && b != NAR && !(matches!(f.name, "ln" | "log2" | "asin" | "acos")) {
+                        continue;
+                    }
+                    // sin/cos/tan outside their reduction range are explicit stubs
+                    if matches!(f.name, "sin" | "cos" | "tan") && a != NAR {
+                        continue;
+                    }
+                    rt::enter(slot, usize::MAX - 9, a as u64, b as u64, 0);
+                    let res = rt::guarded(|| {
+                        if f.arity == 1 {
+                            (f.real1)(P32E2::from_bits(a)).to_bits()
+                        } else {
+                            (f.real2)(P32E2::from_bits(a), P32E2::from_bits(b)).to_bits()
+                        }
+                    });
+                    rt::leave(slot);
+                    l.cov.evaluations += 1;
+                    l.cov.nontrivial += 1;
+                    let inputs = if f.arity == 1 { vec![a as u64] } else { vec![a as u64, b as u64] };
+                    let bad: Option<(String, String)> = match res {
+                        Err(m) => Some(("PANIC".into(), m)),
+                        Ok(g) => {
+                            if want_nar && g != NAR {
+                                Some((format!("0x{:x}", g), "NaR (no real value)".into()))
+                            } else if !want_nar && g == NAR {
+                                Some(("0x80000000".into(), "a real value".into()))
+                            } else if let (false, Some(neg)) = (want_nar, want_neg) {
+                                let gneg = (g as i32) < 0;
+                                if g != 0 && gneg != neg {
+                                    Some((format!("0x{:x}", g), format!("a {} value", if neg { "negative" } else { "positive" })))
+                                } else {
+                                    None
+                                }
+                            } else {
+                                None
+                            }
+                        }
+                    };
+                    if l.cov.samples.is_empty() {
+                        l.cov.samples.push(
+                            J::obj()
+                                .with("fn", J::s(f.name))
+                                .with("inputs", J::arr(inputs.iter().map(|&v| J::hex(v))))
+                                .with("required_class", J::s(if want_nar { "NaR" } else { "real" })),
+                        );
+                    }
+                    if let Some((got, want)) = bad {
+                        l.n += 1;
+                        l.cov.failures += 1;
+                        if l.fails.len() < 6 {
+                            l.fails.push(rt::Failure {
+                                op: format!("P32E2::{}", f.name),
+                                kind: "class".into(),
+                                inputs,
+                                got,
+                                want,
+                                note: "NaR / real class or sign required by the mathematical function".into(),
+                            });
+                        }
+                    }
+                }
+            },
+        )
+        .unwrap_or_else(|_| unreachable!());
+        let mut cov = Cov::default();
+        let mut total = 0;
+        let mut kept = 0;
+        for l in locals {
+            cov.merge(&l.cov);
+            total += l.n;
+            for fl in l.fails {
+                kept += 1;
+                rep.add_failure(fl);
+            }
+        }
+        if total > kept {
+            rep.add_failure_count(&format!("P32E2::{}", f.name), total - kept);
+        }
+        rep.add_subspace(
+            &format!("P32E2::{} (NaR / domain class)", f.name),
+            cov,
+            false,
+            "hostile inputs whose required class is known: NaR operands, arguments outside the real domain; for powf all pairs (NaR exactly where x^y is not real, otherwise the sign of x^y)",
+        );
+    }
 }
